@@ -131,6 +131,11 @@ class Optimizer:
         comment = rules.get("COMMENT")
         whitespace = rules.get("WHITESPACE")
 
+        if "SKIP" in rules:
+            # A rule of the grammar with that name (or the fused rule of an
+            # earlier call). Never replace it.
+            return
+
         if comment and whitespace:
             # TODO:
             return
